@@ -44,6 +44,12 @@ impl U256 {
     }
 
     pub fn checked_shl(&self, other: &u64) -> Option<U256> {
+        // A non-zero value shifted left by 256 bits or more never fits into 256 bits.
+        // Reject it before shifting: `BigUint::shl` allocates memory proportional to
+        // the shift amount, so a huge shift would exhaust the memory and abort.
+        if *other >= 256 && !self.0.is_zero() {
+            return None;
+        }
         let r = (&self.0).shl(other);
         (r.bits() <= 256).then_some(Self(r))
     }
@@ -169,4 +175,21 @@ fn to_hex_display_must_always_have_64_chars() {
     let v = U256::from_be_bytes(&[0u8; 32]);
     assert_eq!(format!("{v:x}").len(), 64);
     assert_eq!(format!("{v:X}").len(), 64);
+}
+
+#[test]
+fn checked_shl_is_bounded_by_the_width() {
+    let zero = U256::from(0u64);
+    let one = U256::from(1u64);
+    assert_eq!(one.checked_shl(&255), Some(U256::from_be_bytes(&{
+        let mut b = [0u8; 32];
+        b[0] = 0x80;
+        b
+    })));
+    assert_eq!(one.checked_shl(&256), None);
+    assert_eq!(one.checked_shl(&(1 << 40)), None);
+    assert_eq!(one.checked_shl(&u64::MAX), None);
+    assert_eq!(U256::from(2u64).checked_shl(&255), None);
+    assert_eq!(zero.checked_shl(&256), Some(zero.clone()));
+    assert_eq!(zero.checked_shl(&u64::MAX), Some(zero));
 }
